@@ -249,6 +249,7 @@ class Fn:
         self.naux = 0
         self.yield_ty = None
         self.lean_name = LEAN_NAMES.get(fn.name, fn.name)
+        self.inline_stack = []    # methods of the class being inlined (self.m(...) calls)
 
     # -- names
     def fresh(self, base):
@@ -698,9 +699,98 @@ class Fn:
             return self.place_set(pl, f"PyRt.listSort {LT} {cur}", env, lambda env2: k(Val("none", "none"), env2))
         raise Unsupported(f"list method .{name}")
 
-    def method_call(self, obj, name, e, env, k):
-        """`self.m(args)` / `c.m(args)` for an already translated method of the class"""
+    def inline_call(self, m, e, env, k):
+        """`self.m(args)`: the body of `m` is translated in place (parameters bound to the argument
+        values, `return v` continues after the call), so extracting or inlining a helper method
+        leaves the generated text — and the equalities proved about it — unchanged"""
         rais = self.cur_rais
+        name = m.name
+        if name in self.inline_stack or len(self.inline_stack) >= 6:
+            raise Unsupported(f"recursive call of {name}")
+        if any(isinstance(n, (ast.Yield, ast.YieldFrom)) for n in ast.walk(m)):
+            raise Unsupported(f"call of the generator method {name}")
+        a = m.args
+        if a.vararg or a.kwarg or a.kwonlyargs or a.posonlyargs or m.decorator_list:
+            raise Unsupported(f"call of {name}: parameter kinds / decorators")
+        if a.args[0].arg != self.selfname:
+            raise Unsupported(f"{name} names its receiver differently")
+        params = a.args[1:]
+        if len(e.args) > len(params) or any(isinstance(x, ast.Starred) for x in e.args):
+            raise Unsupported(f"call of {name}: too many / starred arguments")
+        exprs = list(e.args) + [None] * (len(params) - len(e.args))
+        for kw in e.keywords:
+            idx = next((i for i, p in enumerate(params) if p.arg == kw.arg), None)
+            if idx is None or exprs[idx] is not None:
+                raise Unsupported(f"call of {name}: keyword {kw.arg}")
+            exprs[idx] = kw.value
+        ndef = len(a.defaults)
+        for i, p in enumerate(params):
+            if exprs[i] is None:
+                j = i - (len(params) - ndef)
+                if j < 0 or not isinstance(a.defaults[j], ast.Constant):
+                    raise Unsupported(f"call of {name}: argument {p.arg} missing")
+                exprs[i] = a.defaults[j]
+        saved_rais = rais
+
+        def k2(vs, env2):
+            cenv = Env()
+            cenv.objs[self.selfname] = env2.objs[self.selfname]
+            cenv.ver = {pl: v for pl, v in env2.ver.items() if pl[0] == "field" and pl[1] == self.selfname}
+            cenv.iterating, cenv.dirty = list(env2.iterating), env2.dirty
+
+            def merge(ce):
+                env3 = env2.copy()
+                env3.objs[self.selfname] = ce.objs[self.selfname]
+                for pl, v in ce.ver.items():
+                    if pl[0] == "field" and pl[1] == self.selfname:
+                        env3.ver[pl] = v
+                env3.dirty = ce.dirty
+                return env3
+
+            def back(v, ce):
+                env3 = merge(ce)
+                if v is None:
+                    v = Val("none", "none")
+                if v.ty == "entry" and v.own not in ("fresh", "moved") and not \
+                        (v.alias and v.alias[0][0] == "field" and v.alias[0][1] == self.selfname):
+                    raise Unsupported(f"{name} returns an entry object of unknown provenance")
+                if isinstance(v.ty, tuple) and v.ty[0] == "list" and v.src:
+                    raise Unsupported(f"{name} returns one of its lists")
+                if v.ty == "pq" and v.src and v.src[0] == "obj" and v.src[1] == self.selfname:
+                    raise Unsupported(f"{name} returns self")
+                stack = list(self.inline_stack)
+                self.inline_stack.remove(name)
+                self.cur_rais = saved_rais
+                try:
+                    return k(v, env3)
+                finally:
+                    self.inline_stack = stack
+
+            def go(i, ce):
+                if i == len(params):
+                    cctx = Ctx(end=lambda c: back(None, c), ret=back, rais=lambda exc, c: saved_rais(exc, merge(c)))
+                    return self.blk(body_no_doc(m), ce, cctx)
+                p, v = params[i], vs[i]
+                if p.annotation is None or ann_ty(p.annotation) != v.ty:
+                    raise Unsupported(f"argument {p.arg} of {name}: {v.ty}")
+                self.cur_rais = saved_rais
+                return self.bind_local(p.arg, v, ce, lambda ce2: go(i + 1, ce2))
+            self.inline_stack.append(name)
+            try:
+                return go(0, cenv)
+            finally:
+                if name in self.inline_stack:
+                    self.inline_stack.remove(name)
+        return self.ev_list(exprs, env, k2)
+
+    def method_call(self, obj, name, e, env, k):
+        """`self.m(args)` (inlined) / `c.m(args)` for an already translated method of the class"""
+        rais = self.cur_rais
+        if obj == self.selfname:
+            m = next((n for n in self.cls.body if isinstance(n, ast.FunctionDef) and n.name == name), None)
+            if m is None:
+                raise Unsupported(f"call of self.{name}, which is not a method of the class")
+            return self.inline_call(m, e, env, k)
         if name not in self.helpers:
             raise Unsupported(f"call of {obj}.{name}, which is not a translated method")
         h = self.helpers[name]
@@ -891,8 +981,8 @@ class Fn:
                 return ctx.ret(None, env)
 
             def kr(v, env2):
-                if v.ty == "entry":
-                    raise Unsupported("a method returns an entry object")
+                if v.ty == "entry" and v.own not in ("fresh", "moved") and not self.inline_stack:
+                    raise Unsupported("a method returns an entry object that is still in a list")
                 if isinstance(v.ty, tuple) and v.ty[0] == "list" and v.src:
                     raise Unsupported("a method returns one of its lists")
                 return ctx.ret(v, env2)
@@ -1479,9 +1569,9 @@ class GenFn(Fn):
 LEAN_NAMES = {"__init__": "init", "__len__": "len", "__bool__": "bool"}
 # methods GenEqPQ.lean has an equality for: they must exist (anything else that translates is emitted too)
 REQUIRED = ["__init__", "__len__", "__bool__", "add", "pop", "popitem", "peek", "peekitem", "extend", "remove",
-            "find", "reschedule", "refresh", "sort", "clear", "copy", "ordereditems"]
+            "find", "reschedule", "refresh", "sort", "sorted", "clear", "copy", "ordereditems"]
 # iteration protocols that are not modelled as methods (plain generators over the list)
-SKIP = {"__iter__", "items", "ordered", "sorted"}
+SKIP = {"__iter__", "items", "ordered"}
 
 
 def stub(lean_name, what, msg):
@@ -1564,6 +1654,13 @@ def generate(src: Path) -> dict:
                 raise Unsupported(f"PriorityQueue.{m.name}: {e}")
             problems.append(f"PriorityQueue.{m.name}: {e}")
             texts[m.name] = stub(lean_name, f"PriorityQueue.{m.name}", str(e))
+        except (KeyError, IndexError, AttributeError, TypeError, ValueError, AssertionError, RecursionError) as e:
+            # a shape the translator did not anticipate: just as loud
+            msg = f"internal {type(e).__name__}: {e}"
+            if strict:
+                raise Unsupported(f"PriorityQueue.{m.name}: {msg}")
+            problems.append(f"PriorityQueue.{m.name}: {msg}")
+            texts[m.name] = stub(lean_name, f"PriorityQueue.{m.name}", msg)
     for r in REQUIRED:
         if r not in texts:
             if strict:
